@@ -67,6 +67,16 @@ def make_exception(kind, pid):
         return ExceptionGroup("group " + pid, [ValueError(pid), KeyError(pid)])
     if kind == "TimeoutError":
         return TimeoutError(pid)
+    if kind == "CancelledContext":
+        # what asyncio.wait_for / asyncio.timeout produce: an ordinary exception raised while an
+        # (internal) cancellation was being handled; the payload itself was not cancelled
+        e = TimeoutError(pid)
+        e.__context__ = asyncio.CancelledError()
+        return e
+    if kind == "CancelledCause":
+        e = ValueError(pid)
+        e.__cause__ = asyncio.CancelledError("helper task was cancelled")
+        return e
     if kind == "StopIteration":
         return StopIteration(pid)
     if kind == "StopAsyncIteration":
@@ -86,7 +96,7 @@ def make_exception(kind, pid):
     raise ValueError("unknown exception kind %r" % kind)
 
 
-EXCEPTION_KINDS = ["LookupError", "KeyError", "ValueError", "OSError", "RuntimeError", "AssertionError", "OddInit", "SilentStr", "WithCause", "ExceptionGroup", "TimeoutError", "OrphanedReturn"]
+EXCEPTION_KINDS = ["LookupError", "KeyError", "ValueError", "OSError", "RuntimeError", "AssertionError", "OddInit", "SilentStr", "WithCause", "ExceptionGroup", "TimeoutError", "OrphanedReturn", "CancelledContext", "CancelledCause"]
 ODD_EXCEPTION_KINDS = ["StopIteration", "StopAsyncIteration"]
 BASE_KINDS = ["BaseException", "BaseSub", "SystemExit", "GeneratorExit"]
 
@@ -470,9 +480,23 @@ class Harness:
 
     # -- operations usable from drivers and payloads ------------------------
     def do_adopt(self, pid, by, runner=None):
-        runner = runner or self.runner
         spec = self.specs[pid]
-        fn = self.payload_fn(pid)
+        times = spec.get("times", 1)
+        if times > 1 and not getattr(self, "_in_multi", False):
+            # the very same callable object handed to adopt several times, back to back:
+            # these are `times` payloads and each has to be started
+            self._in_multi = True
+            try:
+                for _ in range(times):
+                    self.do_adopt(pid, by, runner)
+            finally:
+                self._in_multi = False
+            return
+        runner = runner or self.runner
+        cache = self.__dict__.setdefault("_fn_cache", {})
+        fn = cache.get(pid)
+        if fn is None:
+            fn = cache[pid] = self.payload_fn(pid)
         args = [make_arg(a) for a in spec.get("args", [])]
         kwargs = {k: make_arg(v) for k, v in spec.get("kwargs", {}).items()}
         self.ev("adopt-call", pid, by=by)
